@@ -160,6 +160,14 @@ def c11_bounded(tier="quick", seed=0):
     return out
 
 
+@groups.group(id="C11.struct.process-state", prop="C11", kind="K3", functions=["microjs (module-level state)"])
+def c11_process_state(tier="quick", seed=0):
+    """a conversion depends on the value converted only: no memo, cache or default-argument container survives from one
+    crossing of the boundary to the next (the analysis of C12)"""
+    from contracts.C12_context import process_state
+    return process_state("C11", tier, seed)
+
+
 # =======================================================================================================================
 # K1: the scalar part of the boundary, for every Python / JavaScript scalar (unbounded integers, every float incl. NaN,
 # infinities and -0, every string) and every context
